@@ -221,7 +221,9 @@ static void do_op(Cmd *c) {
     }
     if (is_op(c, "zit_new")) {
         int s2 = (int)kv_u64(c, "o2", 1); if (s2 < 0 || s2 >= NSLOT) s2 = 0;
-        if (!ar[s] || !ar[s2]) { o("st=- noobj"); goto tail; }
+        /* a zip iterator cannot be created on a missing array: the old one is forgotten, so that the
+         * rest of the program does not drive a stale iterator */
+        if (!ar[s] || !ar[s2]) { if (is_op(c, "zit_new")) zit_on = 0; o("st=- noobj"); goto tail; }
         cc_array_sized_zip_iter_init(&zit, ar[s], ar[s2]); zit_on = 1; zit_s1 = s; zit_s2 = s2;
         o("st=-"); goto tail;
     }
@@ -234,7 +236,7 @@ static void do_op(Cmd *c) {
     }
     {
     CC_ArraySized *a = ar[s];
-    if (!a) { o("st=- noobj"); goto tail; }
+    if (!a) { if (is_op(c, "it_new")) it_on = 0; o("st=- noobj"); goto tail; }
     size_t dl = a->data_length; cur_dl = dl;
     const char *v0 = c->npos > 0 ? c->pos[0] : "0";
     if (is_op(c, "add")) {
